@@ -326,6 +326,27 @@ func TestVerifC13(t *testing.T) {
 			}
 		}
 	}
+	// (2b) integer tokens around the 64-bit borders (unsigned ids and hashes look like this): all pairs of ends x
+	// 4 bracket forms. "Compared as numbers" is read as the code documents it: as float64 values.
+	{
+		wends := []string{"*", "0", "9000000000000000000", "9223372036854775807", "-9223372036854775808", "18446744073709551615", "1e19", "-1e19"}
+		wtoks := []string{"9223372036854775807", "9223372036854775808", "9999999999999999999", "-9223372036854775808", "-9223372036854775809",
+			"-9999999999999999999", "18446744073709551615", "18446744073709551616", "99999999999999999999", "-99999999999999999999",
+			"1e19", "100", "-5", "0", "4611686018427387904", "999999999999999999", "1000000000000000000", "+9999999999999999999", "x"}
+		wsorted := append([]string{}, wtoks...)
+		sort.Strings(wsorted)
+		for _, f := range wends {
+			for _, to := range wends {
+				for _, lb := range []string{"[", "("} {
+					for _, rb := range []string{"]", ")"} {
+						q := "f:" + lb + f + ", " + to + rb
+						judge(r, c13Case{Kind: "range", Query: q, Tokens: wtoks, Ordered: false})
+						judge(r, c13Case{Kind: "range", Query: q, Tokens: wsorted, Ordered: true})
+					}
+				}
+			}
+		}
+	}
 	r.Sample(c13Case{Kind: "range", Query: "f:(1, 10]", Tokens: sortedR[:10], Ordered: true})
 	// ---- (3) dictionaries x block layouts ----
 	base := words("ab", 3) // 15 tokens
